@@ -7,5 +7,5 @@ ROUND12 = {
  "C12": "Round 12: a BASH_FUNC_ entry is pasted into the --tmux script only with an identifier name and a function value (C12-R16).",
  "C19": "Round 12: trailing separators of a --walker-skip entry are removed before it is classified (C19-R20).",
  "C14": "Round 12: Pause and Resume each switch the screen in both modes (C14-R25); the modes Pause switches off are switched on again on every path of Resume (C14-R26).",
- "C15": "Round 12: the width left behind the cursor is a display width (C15-R32); Terminal.move addresses the input and the header window bottom-up (C15-R33); the output filter of the light renderer is a range test, never a Unicode table (C15-R34, C14-R22); Terminal.header has as many elements as rows are reserved for it (C15-R35); a header window that has to come or go asks for a full redraw (C15-R36).",
+ "C15": "Round 12: the width left behind the cursor is a display width (C15-R32); Terminal.move addresses the input and the header window bottom-up (C15-R33); the output filter of the light renderer is a range test, never a Unicode table (C15-R34, C14-R22); Terminal.header has as many elements as rows are reserved for it (C15-R35); a header window (C15-R36) or an input window (C15-R37) that has to come or go asks for a full redraw.",
 }
